@@ -41,11 +41,18 @@ func register(s *Spec) {
 	inner := s.Run
 	s.Run = func(r *an.Run) {
 		inner(r)
+		for _, x := range specExtras[s.ID] {
+			x(r)
+		}
 		loopCoverage(r, s.ID)
 		directCalls(r)
 	}
 	registry[s.ID] = s
 }
+
+// specExtras holds obligations kept in their own files and attached to a
+// spec by ID (filled by init functions; read when the spec runs).
+var specExtras = map[string][]func(*an.Run){}
 
 // Get returns the spec or nil.
 func Get(id string) *Spec { return registry[id] }
